@@ -100,9 +100,11 @@ _log_format_variables = {
     'asctime': 'atime',
     'msecs': 1.1,
     'relativeCreated': 1.1,
-    'thread': 1,
+    # identifiers of the size real records carry: a format that only
+    # works for small numbers ('%(thread)c') must be refused here
+    'thread': 140735272718336,
     'message': 'amessage',
-    'process': 1,
+    'process': 4194304,
     'funcName': 'fname',
 }
 
@@ -201,6 +203,9 @@ class FormatterFactory:
             # since those aren't allowed when formatting with a mapping.
             #
             raise ValueError('%s formats cannot use positional placeholders')
+        except OverflowError as e:
+            # e.g. the 'c' conversion applied to a thread identifier
+            raise ValueError(f'format cannot render an ordinary record: {e}')
 
         # Make sure the formatter can actually be built: the formatter
         # class validates the format string itself (logging.Formatter
